@@ -1111,6 +1111,24 @@ func (c *Context) Pow(d, x, y *Decimal) (Condition, error) {
 		return 0, nil
 	}
 
+	if y.Form == Infinite {
+		// x is finite and non-zero: the result is decided by comparing |x|
+		// with 1; a negative x has no infinite power.
+		var res Condition
+		switch cmp := x.Cmp(decimalOne); {
+		case xs < 0:
+			d.Set(decimalNaN)
+			res = InvalidOperation
+		case cmp == 0:
+			d.Set(decimalOne)
+		case (cmp > 0) != y.Negative:
+			d.Set(decimalInfinity)
+		default:
+			d.Set(decimalZero)
+		}
+		return c.goError(res)
+	}
+
 	if xs < 0 && !yIsInt {
 		d.Set(decimalNaN)
 		return c.goError(InvalidOperation)
